@@ -66,10 +66,12 @@ def run(ctx, rep):
     sites = hash_sites(facts, reach)
     consumers = 0
     seq_sites = []
+    ordinal = {}
     for p, f, t, name, self_ty, args in sites:
         meth = method_of(name)
         where = cfg.where(f, t)
-        key = "C11|A6|%s|%s" % (p, meth)
+        ordinal[(p, meth)] = ordinal.get((p, meth), 0) + 1
+        key = "C11|A6|%s|%s" % (p, meth) + ("#%d" % ordinal[(p, meth)] if ordinal[(p, meth)] > 1 else "")
         chain = self_ty
         if meth in ADAPTORS:
             rep.ok("A6", "adaptor", {"site": where, "call": meth, "receiver": chain[:100], "class": "adaptor (classified at its consumer)"})
